@@ -269,7 +269,7 @@ func c05Scenario(c *choice.Ctx, rep *report.R, tcp bool, startQid int, nCalls, d
 			}
 		}
 		if anyInflight {
-			menu = append(menu, event{name: "advance2s", do: func() { time.Sleep(timeout) }})
+			menu = append(menu, event{name: "advance2s", do: func() { hsleep(timeout) }})
 		}
 		ev := pick(c, menu)
 		if ev == nil {
